@@ -264,3 +264,40 @@ def extra(ctx):
     if not perm_rows or not period_rows:
         out.append({"class": "broken", "what": "e_rand stat printed no rows"})
     return out
+
+
+# ---- second tie: the integer draw impls and next_raw regenerated from the source text on every run (tools/rs2lean_typed.py) ----
+ASSUMPTIONS.append(
+    "second tie: the model's genRange/genIncl/gen (all five integer range forms, signed and unsigned, every width <= 64) and nextRaw "
+    "are proved equal (theorems src_*_eq_model) to the definitions that tools/rs2lean_typed.py regenerates on every run from the text of "
+    "rlib/rand/src/randomable.rs (macro bodies translated once, the macro's type parameters as IntTy parameters; the invocation list "
+    "is regenerated too and proved to have the assumed shape) and rlib/rand/src/lcg.rs; trusted there: the translator, its reading of "
+    "the primitive integer operations and of std's Range/RangeInclusive (fields, start()/end(), is_empty); not translated: Range<f64>, "
+    "from_time, the generic `next`, mrand.rs")
+MANIFEST["technique"] += " + source-to-Lean translation of randomable.rs / lcg.rs regenerated and proved equal to the model on every run"
+
+_extract_constants = extract
+
+
+def extract(repo):
+    """The constants (above), then the translation of randomable.rs and lcg.rs into Generated/RandSrc.lean, Generated/LcgSrc.lean
+    (written only when the text changes; a construct outside the translator's subset is a broken correspondence and leaves a
+    generated file without definitions, so the src_* theorems stop compiling too)."""
+    params, problems = _extract_constants(repo)
+    import sys
+    verif = os.path.dirname(os.path.dirname(os.path.abspath(__file__)))
+    tools = os.path.join(verif, "tools")
+    if tools not in sys.path:
+        sys.path.insert(0, tools)
+    import rs2lean_typed
+    gen = os.path.join(verif, "lean", "RlibModel", "Generated")
+    rel1, rel2 = "rlib/rand/src/randomable.rs", "rlib/rand/src/lcg.rs"
+    i1, p1 = rs2lean_typed.run(os.path.join(repo, rel1), os.path.join(gen, "RandSrc.lean"), "Rlib.RandSrc", rel1, ID, None,
+                               ["gen_from_u64"], macro="make_randomable")
+    i2, p2 = rs2lean_typed.run(os.path.join(repo, rel2), os.path.join(gen, "LcgSrc.lean"), "Rlib.LcgSrc", rel2, ID,
+                               "LinearCongruentialGenerator64", ["from_seed", "next_raw"])
+    params["translated_functions"] = i1.get("functions", []) + i2.get("functions", [])
+    params["translated_macro_instances"] = i1.get("instances", [])
+    params["generated_files"] = ["lean/RlibModel/Generated/RandSrc.lean", "lean/RlibModel/Generated/LcgSrc.lean"]
+    params["generated_files_rewritten"] = [bool(i1.get("rewritten")), bool(i2.get("rewritten"))]
+    return params, problems + p1 + p2
